@@ -15,6 +15,7 @@ Section PInd.
   Hypothesis Hfloat : forall r, P (PFloat r).
   Hypothesis Hstr : forall s, P (PStr s).
   Hypothesis Htime : forall t, P (PTime t).
+  Hypothesis Hstamp : forall ym p c t, P (PStamp ym p c t).
   Hypothesis Hlist : forall l, Forall P l -> P (PList l).
   Hypothesis Hdict : forall m, Forall (fun kv => P (snd kv)) m -> P (PDict m).
 
@@ -26,6 +27,7 @@ Section PInd.
     | PFloat r => Hfloat r
     | PStr s => Hstr s
     | PTime t => Htime t
+    | PStamp ym p c t => Hstamp ym p c t
     | PList l => Hlist l ((fix go (l : list pval) : Forall P l :=
                              match l with
                              | [] => Forall_nil _
@@ -52,6 +54,7 @@ Inductive pnodup : pval -> Prop :=
 | pn_float : forall r, pnodup (PFloat r)
 | pn_str : forall s, pnodup (PStr s)
 | pn_time : forall t, pnodup (PTime t)
+| pn_stamp : forall ym p c t, pnodup (PStamp ym p c t)
 | pn_list : forall l, Forall pnodup l -> pnodup (PList l)
 | pn_dict : forall m, NoDup (map fst m) -> Forall (fun kv => pnodup (snd kv)) m -> pnodup (PDict m).
 
